@@ -885,6 +885,13 @@ def forms(ctx, rng):
         lo_, hi_ = b0 - 3 * (b1 - b0) - 2, b1 + 3 * (b1 - b0) + 2
         for dt in (np.int64, np.int32, np.int16):
             cos_case([b0, b1], np.arange(lo_, hi_, dtype=dt), f"integer samples ({np.dtype(dt).name}) {lo_}..{hi_ - 1}")
+        if b0 > 0:
+            # sample / channel indices held as unsigned integers, from 0 up: values below the lower bound must not wrap around
+            # (seed round i); the bounds as Python integers and as unsigned NumPy scalars
+            for dt in (np.uint16, np.uint32, np.uint64, np.uint8):
+                if hi_ < np.iinfo(dt).max:
+                    cos_case([b0, b1], np.arange(0, hi_, dtype=dt), f"unsigned samples ({np.dtype(dt).name}) 0..{hi_ - 1}")
+                    cos_case([dt(b0), dt(b1)], np.arange(0, hi_, dtype=dt), f"unsigned samples and bounds ({np.dtype(dt).name})")
         cos_case((b0, b1), np.arange(lo_, hi_, dtype=np.float64), "bounds as a tuple")
         cos_case(np.array([b0, b1]), np.arange(lo_, hi_, dtype=np.float64), "bounds as an integer array")
         cos_case(np.array([b0, b1], dtype=np.float32), np.linspace(lo_, hi_, 301), "bounds as a float32 array")
